@@ -89,110 +89,45 @@ theorem wrotesSt_append (st : Nat) (m : Method) (a b : List Event) :
 
 /-! ## What a path emits -/
 
-theorem writeResponse_wrote {m : Method} {st : Nat} {w : Bool}
-    (h : skipTraceWroteResponse m st w = false) : writeResponse m st w = [.wrote m st] := by
-  simp [writeResponse, h]
+/-- a response written with `writeResponse` is reported, whatever its method and status and whether
+    or not the write failed -/
+theorem writeResponse_wrote (m : Method) (st : Nat) (w : Bool) : writeResponse m st w = [.wrote m st] := by
+  simp [writeResponse, write]
 
-theorem skip_false_of_err (m : Method) (st : Nat) : skipTraceWroteResponse m st true = false := by
-  simp [skipTraceWroteResponse]
+/-- the head of a tunnel is reported at once exactly when writing it failed -/
+theorem writeTunnelResponse_err (m : Method) (st : Nat) : writeTunnelResponse m st true = [.wrote m st] := by
+  simp [writeTunnelResponse, write]
 
-theorem skip_false_of_not_connect {m : Method} {st : Nat} (w : Bool) (hm : m ≠ .connect)
-    (hs : st ≠ 101) : skipTraceWroteResponse m st w = false := by
-  simp [skipTraceWroteResponse, hm, hs]
+theorem writeTunnelResponse_ok (m : Method) (st : Nat) : writeTunnelResponse m st false = [] := by
+  simp [writeTunnelResponse, write]
 
-theorem skip_false_connect {st : Nat} (w : Bool) (h2 : st / 100 ≠ 2) (hs : st ≠ 101) :
-    skipTraceWroteResponse .connect st w = false := by
-  simp [skipTraceWroteResponse, h2, hs]
+/-- every end of a tunnel reports once -/
+theorem tunnel_once (m : Method) (st : Nat) (e : TunnelEnd) : tunnel m st e = [.wrote m st] := by
+  cases e <;> simp [tunnel, writeTunnelResponse_err, writeTunnelResponse_ok]
 
-theorem skip_true_connect_200 : skipTraceWroteResponse .connect 200 false = true := by decide
+theorem tunnel_connect (e : TunnelEnd) : tunnel .connect 200 e = [.wrote .connect 200] := tunnel_once _ _ e
 
-theorem skip_true_101 (m : Method) : skipTraceWroteResponse m 101 false = true := by
-  simp [skipTraceWroteResponse]
+theorem tunnel_upgrade (m : Method) (e : TunnelEnd) : tunnel m 101 e = [.wrote m 101] := tunnel_once _ _ e
 
-theorem tunnel_connect (e : TunnelEnd) : tunnel .connect 200 e = [.wrote .connect 200] := by
-  cases e <;> simp [tunnel, writeResponse, skip_true_connect_200, skip_false_of_err]
-
-theorem tunnel_upgrade (m : Method) (e : TunnelEnd) : tunnel m 101 e = [.wrote m 101] := by
-  cases e <;> simp [tunnel, writeResponse, skip_true_101, skip_false_of_err]
-
-theorem ge400_div (st : Nat) (h : 400 ≤ st) : st / 100 ≠ 2 := by omega
-
-theorem ge400_ne101 (st : Nat) (h : 400 ≤ st) : st ≠ 101 := by omega
-
-/-- the core of the exactly-once theorem -/
+/-- the core of the exactly-once theorem: every path outside shutdown, no class excluded -/
 theorem events_eq_expected {p : Path} (hg : p.good = true) : p.events = p.expected := by
   cases p with
   | readError => rfl
   | shutdownAfterRead m => simp [Path.good, Path.shutdown] at hg
-  | refused m st w =>
-    simp [Path.good, Path.valid, Path.shutdown, Path.defect] at hg
-    simp [Path.events, Path.expected, Path.request, Path.clientStatus, writeErrorResponse,
-      writeResponse_wrote (skip_false_of_not_connect w hg.1 (ge400_ne101 st hg.2))]
-  | roundTripError m st w =>
-    simp [Path.good, Path.valid, Path.shutdown, Path.defect] at hg
-    simp [Path.events, Path.expected, Path.request, Path.clientStatus, writeErrorResponse,
-      writeResponse_wrote (skip_false_of_not_connect w hg.1 (ge400_ne101 st hg.2))]
-  | transportConnectRejected m st w =>
-    simp [Path.good, Path.valid, Path.shutdown, Path.defect] at hg
-    obtain ⟨⟨hm, _⟩, hd⟩ := hg
-    have hs : skipTraceWroteResponse m st w = false := by
-      cases w with
-      | true => exact skip_false_of_err _ _
-      | false =>
-        have : st ≠ 101 := by simpa using hd
-        exact skip_false_of_not_connect false hm this
-    simp [Path.events, Path.expected, Path.request, Path.clientStatus, writeErrorResponse,
-      writeResponse_wrote hs]
-  | responseModifierError m st w =>
-    simp [Path.good, Path.valid, Path.shutdown, Path.defect] at hg
-    simp [Path.events, Path.expected, Path.request, Path.clientStatus, writeErrorResponse,
-      writeResponse_wrote (skip_false_of_not_connect w hg.1 (ge400_ne101 st hg.2))]
-  | response m st w =>
-    simp [Path.good, Path.valid, Path.shutdown, Path.defect] at hg
-    simp [Path.events, Path.expected, Path.request, Path.clientStatus,
-      writeResponse_wrote (skip_false_of_not_connect w hg.1 hg.2)]
-  | upgradeNonWritable m w =>
-    simp [Path.good, Path.valid, Path.shutdown, Path.defect] at hg
-    simp [Path.events, Path.expected, Path.request, Path.clientStatus, writeErrorResponse,
-      writeResponse_wrote (skip_false_of_not_connect w hg (by decide : (502 : Nat) ≠ 101))]
   | upgrade m e =>
     simp [Path.events, Path.expected, Path.request, Path.clientStatus, tunnel_upgrade]
-  | connectRefused st w =>
-    simp [Path.good, Path.valid, Path.shutdown, Path.defect] at hg
-    simp [Path.events, Path.expected, Path.request, Path.clientStatus, writeErrorResponse,
-      writeResponse_wrote (skip_false_connect w (ge400_div st hg) (ge400_ne101 st hg))]
-  | connectDialFailure st w =>
-    simp [Path.good, Path.valid, Path.shutdown, Path.defect] at hg
-    simp [Path.events, Path.expected, Path.request, Path.clientStatus, writeErrorResponse,
-      writeResponse_wrote (skip_false_connect w (ge400_div st hg) (ge400_ne101 st hg))]
-  | connectResponseModifierError st w =>
-    simp [Path.good, Path.valid, Path.shutdown, Path.defect] at hg
-    simp [Path.events, Path.expected, Path.request, Path.clientStatus, writeErrorResponse,
-      writeResponse_wrote (skip_false_connect w (ge400_div st hg) (ge400_ne101 st hg))]
-  | connectRejected st w =>
-    simp [Path.good, Path.valid, Path.shutdown, Path.defect] at hg
-    obtain ⟨h2, hd⟩ := hg
-    have hs : skipTraceWroteResponse .connect st w = false := by
-      cases w with
-      | true => exact skip_false_of_err _ _
-      | false =>
-        have : st ≠ 101 := by simpa using hd
-        exact skip_false_connect false h2 this
-    simp [Path.events, Path.expected, Path.request, Path.clientStatus, writeResponse_wrote hs]
   | connectTunnel e =>
     simp [Path.events, Path.expected, Path.request, Path.clientStatus, tunnel_connect]
-  | mitmResponseModifierError st w =>
-    simp [Path.good, Path.valid, Path.shutdown, Path.defect] at hg
-    simp [Path.events, Path.expected, Path.request, Path.clientStatus,
-      writeResponse_wrote (skip_false_connect w (ge400_div st hg) (ge400_ne101 st hg))]
-  | mitmWriteError =>
-    simp [Path.events, Path.expected, Path.request, Path.clientStatus, writeResponse,
-      skip_false_of_err]
-  | mitmHandoff =>
-    simp [Path.events, Path.expected, Path.request, Path.clientStatus, writeResponse,
-      skip_true_connect_200]
+  | _ =>
+    simp [Path.events, Path.expected, Path.request, Path.clientStatus, writeErrorResponse,
+      writeResponse_wrote]
 
 /-! ## Counting over a list of good paths -/
+
+theorem good_of_valid (ps : List Path) (h : ∀ p ∈ ps, p.valid = true ∧ p.shutdown = false) :
+    ∀ p ∈ ps, p.good = true := by
+  intro p hp
+  simp [Path.good, (h p hp).1, (h p hp).2]
 
 theorem reads_expected (p : Path) (m : Method) :
     reads m p.expected = if p.request = some m then 1 else 0 := by
@@ -360,7 +295,7 @@ def owed (m : Method) : List Event → Nat
 def owedSum (m : Method) (ls : List (List Event)) : Nat := (ls.map (owed m)).sum
 
 /-- the shapes the remaining part of an exchange can have: nothing, a request and its report (under
-    the request's own method), the report alone, or a request that is never reported (shutdown, F40) -/
+    the request's own method), the report alone, or a request that is never reported (shutdown) -/
 def Rem (l : List Event) : Prop :=
   l = [] ∨ (∃ a s, l = [.read a, .wrote a s]) ∨ (∃ a s, l = [.wrote a s]) ∨ (∃ a, l = [.read a])
 
@@ -370,19 +305,11 @@ theorem rem_expected (p : Path) : Rem p.expected := by
   | none => exact Or.inl rfl
   | some m => exact Or.inr (Or.inl ⟨m, _, rfl⟩)
 
-theorem writeResponse_shape (m : Method) (st : Nat) (w : Bool) :
-    writeResponse m st w = [] ∨ writeResponse m st w = [.wrote m st] := by
-  unfold writeResponse
-  split
-  · exact Or.inl rfl
-  · exact Or.inr rfl
-
 theorem rem_read_cons (m : Method) (st : Nat) (w : Bool) : Rem (.read m :: writeResponse m st w) := by
-  rcases writeResponse_shape m st w with h | h <;> rw [h]
-  · exact Or.inr (Or.inr (Or.inr ⟨m, rfl⟩))
-  · exact Or.inr (Or.inl ⟨m, st, rfl⟩)
+  rw [writeResponse_wrote]
+  exact Or.inr (Or.inl ⟨m, st, rfl⟩)
 
-/-- EVERY path of the grammar — whatever its status, also the shutdown path and the F40 paths —
+/-- EVERY path of the grammar — whatever its status, also the shutdown path —
     emits at most one `read` and reports it, if at all, under the same method -/
 theorem rem_events (p : Path) : Rem p.events := by
   cases p with
@@ -406,9 +333,7 @@ theorem rem_events (p : Path) : Rem p.events := by
     exact Or.inr (Or.inl ⟨.connect, 200, rfl⟩)
   | mitmResponseModifierError st w => exact rem_read_cons .connect st w
   | mitmWriteError => exact rem_read_cons .connect 200 true
-  | mitmHandoff =>
-    simp only [Path.events, writeResponse, skip_true_connect_200, if_true, List.nil_append]
-    exact Or.inr (Or.inl ⟨.connect, 200, rfl⟩)
+  | mitmHandoff => exact rem_read_cons .connect 200 false
 
 /-- no path starts by owing a report -/
 theorem owed_events (p : Path) (m : Method) : owed m p.events = 0 := by
